@@ -252,7 +252,7 @@ func runCase(cfg caseCfg, r *vgen.Rand) (out caseOut) {
 	defer cancel()
 	t0 := time.Now()
 	go func() { _ = dp.Run(ctx) }()
-	if !waitFor(2*time.Second, func() bool {
+	if !waitFor(60*time.Second, func() bool {
 		if !dp.Running() {
 			return false
 		}
@@ -397,7 +397,7 @@ func runCase(cfg caseCfg, r *vgen.Rand) (out caseOut) {
 	// processors emit no event between taking a packet from their queue and returning it, so
 	// silence in the log alone proves nothing.
 	quiet := func(expect int) bool {
-		return waitFor(3*time.Second, func() bool {
+		return waitFor(20*time.Second, func() bool {
 			if !inputsEmpty() {
 				return false
 			}
@@ -518,7 +518,7 @@ func runCase(cfg caseCfg, r *vgen.Rand) (out caseOut) {
 				dp.VerifPoolReturn(pkt)
 			}
 		}
-		if !waitFor(3*time.Second, func() bool {
+		if !waitFor(20*time.Second, func() bool {
 			time.Sleep(300 * time.Microsecond)
 			return routerIdle()
 		}) {
